@@ -183,7 +183,9 @@ def tlc(module, cfg, cwd, env=None, workers=1, timeout=600, xmx="3g", extra=None
     if env:
         e.update({k: str(v) for k, v in env.items()})
     md = os.path.join(cwd, "md_%s_%d" % (module, int(time.time() * 1000) % 100000000))
-    jopts = ["-XX:+UseParallelGC", "-Xmx" + xmx, "-Xss256m"]
+    # TLC unpacks its module jar into java.io.tmpdir (tlc-<n>) and never removes it: keep that inside the metadir
+    os.makedirs(md, exist_ok=True)
+    jopts = ["-XX:+UseParallelGC", "-Xmx" + xmx, "-Xss256m", "-Djava.io.tmpdir=" + md]
     if deque:
         jopts.append("-Dtlc2.tool.queue.IStateQueue=StateDeque")
     cmd = ["timeout", str(timeout), "java"] + jopts + ["-cp", JAR, "tlc2.TLC", "-workers", str(workers),
